@@ -401,3 +401,100 @@ Proof. intros R B PM. change (2 ^ 31)%Z with 2147483648%Z in B.
   exists e. split; [exact E|]. rewrite read_scriptint_spec.
   destruct (Nat.ltb_spec 4 (length e)); [reflexivity|]. exfalso.
   assert (Z.to_N (Z.abs n) < 128 * 256 ^ N.of_nat 3) by (apply LEN; lia). change (128 * 256 ^ N.of_nat 3) with 2147483648 in *. lia. Qed.
+
+(* ------------------------------------------------------------------ instructions_minimal on built scripts *)
+Definition special_small (n : Z) : bool := ((n =? -1) || ((1 <=? n) && (n <=? 16)))%Z.
+
+Lemma scriptint_bad_iff p n : in_i64 n = true -> (bad_single (scriptint_bytes p n) = true <-> special_small n = true).
+Proof. intros R. split.
+  - intros B. unfold scriptint_bytes in B. destruct (Z.eq_dec n 0) as [->|NZ]; [discriminate B|].
+    destruct (build_scriptint p n) as [e|w] eqn:E; [|discriminate B].
+    assert (PM : p = Release \/ n <> i64_min).
+    { destruct p; [|left; reflexivity]. right. intros ->. rewrite build_scriptint_min_debug in E. discriminate. }
+    destruct (build_scriptint_spec p n R NZ PM) as (e' & E' & D & _). rewrite E in E'. inversion E'; subst e'.
+    destruct e as [|x [|y r]]; try discriminate B. cbn [sm_dec] in D. inversion D as [[D1 D2]]. cbn [bad_single] in B.
+    pose proof (b2n_lt x). unfold special_small. destruct (Z.ltb_spec n 0), (N.leb_spec 128 (b2n x)); try discriminate D1; lia.
+  - unfold special_small. intros S.
+    assert (C : (n = -1 \/ n = 1 \/ n = 2 \/ n = 3 \/ n = 4 \/ n = 5 \/ n = 6 \/ n = 7 \/ n = 8 \/ n = 9 \/ n = 10 \/ n = 11 \/ n = 12
+              \/ n = 13 \/ n = 14 \/ n = 15 \/ n = 16)%Z) by lia.
+    repeat (destruct C as [-> | C]); try subst n; reflexivity. Qed.
+
+Definition bad_op (op : bop) : bool :=
+  match op with BSlice d => bad_single d | BScriptInt n => special_small n | _ => false end.
+Lemma pushed_bad_iff p op : op_ok op = true -> ((exists d, pushed p op = Some d /\ bad_single d = true) <-> bad_op op = true).
+Proof. intros OK. destruct op as [n|n|d|c|]; cbn [pushed bad_op op_ok] in *.
+  - split; [|discriminate]. intros (d & P & B). exfalso. unfold int_item in P. fold (special_small n) in *.
+    destruct (n =? -1)%Z eqn:E1; [discriminate|]. destruct ((1 <=? n) && (n <=? 16))%Z eqn:E2; [discriminate|].
+    destruct (n =? 0)%Z; inversion P; subst d; [discriminate B|].
+    apply (scriptint_bad_iff p n OK) in B. unfold special_small in B. rewrite E1, E2 in B. discriminate.
+  - rewrite <- (scriptint_bad_iff p n OK). split; [intros (d & P & B); inversion P; subst; exact B|intros B; eexists; split; [reflexivity|exact B]].
+  - split; [intros (d' & P & B); inversion P; subst; exact B|intros B; eexists; split; [reflexivity|exact B]].
+  - split; [|discriminate]. intros (d & P & B). rewrite item_of_opcode_spec in P. destruct (b2n c =? 0); inversion P; subst. discriminate B.
+  - split; [intros (d & P & _); discriminate|discriminate]. Qed.
+
+Lemma Built_items s its : Built s its -> forall i, In i its -> is_err i = false.
+Proof. induction 1; intros i Hi; [contradiction| |]; destruct Hi as [<-|Hi]; auto. Qed.
+
+Lemma cut_ok its : (forall i, In i its -> is_err i = false) ->
+  ((forall i, In i (cut_nonminimal its) -> is_err i = false) <-> (forall d, In (IPush d) its -> bad_single d = false))
+  /\ ((forall d, In (IPush d) its -> bad_single d = false) -> cut_nonminimal its = its).
+Proof. induction its as [|i r IH]; intros NE.
+  - split; [split; intros; contradiction|reflexivity].
+  - destruct IH as [IH1 IH2]; [intros; apply NE; right; assumption|].
+    assert (Ei : is_err i = false) by (apply NE; left; reflexivity).
+    destruct i as [d| | | |]; try discriminate Ei; cbn [cut_nonminimal].
+    + destruct (bad_single d) eqn:B.
+      * split; [split|].
+        -- intros H. specialize (H (IErr NonMinimalPush) (or_introl eq_refl)). discriminate H.
+        -- intros H. specialize (H d (or_introl eq_refl)). congruence.
+        -- intros H. specialize (H d (or_introl eq_refl)). congruence.
+      * split; [split|].
+        -- intros H d' [E|Hd]; [inversion E; subst; exact B|]. apply IH1; [|exact Hd]. intros; apply H; right; assumption.
+        -- intros H j [<-|Hj]; [reflexivity|]. apply IH1 in Hj; [exact Hj|]. intros; apply H; right; assumption.
+        -- intros H. f_equal. apply IH2. intros; apply H; right; assumption.
+    + split; [split|].
+      * intros H d' [E|Hd]; [discriminate E|]. apply IH1; [|exact Hd]. intros; apply H; right; assumption.
+      * intros H j [<-|Hj]; [reflexivity|]. apply IH1 in Hj; [exact Hj|]. intros; apply H; right; assumption.
+      * intros H. f_equal. apply IH2. intros; apply H; right; assumption. Qed.
+
+Lemma expected_step_pushes p racc op d :
+  In (IPush d) (expected_step p racc op) <-> In (IPush d) racc \/ pushed p op = Some d.
+Proof. destruct op as [n|n|d'|c|]; cbn [expected_step pushed].
+  - destruct (int_item p n); cbn [In]; split; intros H; try (destruct H as [H|H]; [discriminate H|auto]);
+      try (destruct H as [H|H]; [right; assumption|discriminate H]).
+    + destruct H as [H|H]; [inversion H; subst; right; reflexivity|left; assumption].
+    + destruct H as [H|H]; [right; assumption|inversion H; subst; left; reflexivity].
+  - cbn [In]. split; intros [H|H]; [inversion H; subst; auto|auto|auto|inversion H; subst; auto].
+  - cbn [In]. split; intros [H|H]; [inversion H; subst; auto|auto|auto|inversion H; subst; auto].
+  - destruct (item_of_opcode c); cbn [In]; split; intros H; try (destruct H as [H|H]; [discriminate H|auto]);
+      try (destruct H as [H|H]; [right; assumption|discriminate H]).
+    + destruct H as [H|H]; [inversion H; subst; right; reflexivity|left; assumption].
+    + destruct H as [H|H]; [right; assumption|inversion H; subst; left; reflexivity].
+  - destruct racc as [|[d0|c0|e0|w0|] racc']; cbn [In]; try (split; [intros [H|H]; [discriminate H|auto]|intros [H|H]; [auto|discriminate H]]).
+    destruct (fold_item c0); cbn [In]; split; intros H.
+    + destruct H as [H|H]; [discriminate H|auto].
+    + destruct H as [[H|H]|H]; [discriminate H|auto|discriminate H].
+    + destruct H as [H|[H|H]]; [discriminate H|discriminate H|auto].
+    + destruct H as [[H|H]|H]; [discriminate H|auto|discriminate H]. Qed.
+
+Lemma expected_pushes p d : forall ops racc,
+  In (IPush d) (fold_left (expected_step p) ops racc) <-> In (IPush d) racc \/ exists op, In op ops /\ pushed p op = Some d.
+Proof. induction ops as [|op ops IH]; intros racc; cbn [fold_left].
+  - split; [auto|intros [H|(op & [] & _)]; exact H].
+  - rewrite IH, expected_step_pushes. split.
+    + intros [[H|H]|(op' & I & P)]; [auto|right; exists op; split; [left; reflexivity|exact H]|right; exists op'; split; [right; exact I|exact P]].
+    + intros [H|(op' & [<-|I] & P)]; [auto|auto|right; exists op'; auto]. Qed.
+
+Theorem minimal_iter p ops s : forallb op_ok ops = true -> build p ops = Val s ->
+  instructions true s = cut_nonminimal (expected p ops) /\
+  ((forall i, In i (instructions true s) -> is_err i = false) <-> (forall op, In op ops -> bad_op op = false)) /\
+  ((forall op, In op ops -> bad_op op = false) -> instructions true s = instructions false s).
+Proof. intros OK H. pose proof (build_Built p ops s OK H) as B. pose proof (Built_items _ _ B) as NE.
+  rewrite (readback_minimal p ops s OK H), (readback p ops s OK H). destruct (cut_ok _ NE) as [C1 C2].
+  assert (X : (forall d, In (IPush d) (expected p ops) -> bad_single d = false) <-> (forall op, In op ops -> bad_op op = false)).
+  { unfold expected. split.
+    - intros A op I. destruct (bad_op op) eqn:Bd; [|reflexivity]. rewrite forallb_forall in OK.
+      apply (pushed_bad_iff p op (OK op I)) in Bd as (d & P & Bs). rewrite <- Bs. apply A. rewrite <- in_rev. apply expected_pushes. right. exists op; auto.
+    - intros A d I. rewrite <- in_rev in I. apply expected_pushes in I as [[]|(op & I & P)]. destruct (bad_single d) eqn:Bs; [|reflexivity].
+      rewrite forallb_forall in OK. rewrite <- (A op I). symmetry. apply (pushed_bad_iff p op (OK op I)). exists d; auto. }
+  split; [reflexivity|]. split; [rewrite C1; exact X|]. intros A. apply C2. apply X. exact A. Qed.
